@@ -269,6 +269,8 @@ bus0_sock_send(void *arg, nni_aio *aio)
 	bus0_pipe *pipe;
 	uint32_t   sender = 0;
 	size_t     len;
+	bool       started;
+	nni_duration tmo;
 
 	msg = nni_aio_get_msg(aio);
 	len = nni_msg_len(msg);
@@ -291,7 +293,14 @@ bus0_sock_send(void *arg, nni_aio *aio)
 
 	nni_mtx_lock(&s->mtx);
 
-	if (!nni_aio_start(aio, NULL, NULL)) {
+	// BUS send never blocks, so no timeout - not even a zero one, as used
+	// for non-blocking sends - can apply to it.  We start the aio only
+	// to honor an aio that was stopped or aborted.
+	tmo = nni_aio_get_timeout(aio);
+	nni_aio_set_timeout(aio, NNG_DURATION_INFINITE);
+	started = nni_aio_start(aio, NULL, NULL);
+	nni_aio_set_timeout(aio, tmo);
+	if (!started) {
 		nni_mtx_unlock(&s->mtx);
 		return;
 	}
